@@ -1,7 +1,7 @@
 (* Thm/C07.v — property C07: second order and time-reversible.  Models: Model/Hop.v (Verlet),
    Model/Propagate.v (Wmid, exp_step); proofs: Proof/HopP.v, Proof/ReverseP.v. *)
 From Coq Require Import Reals List Lra.
-From MV Require Import Ops RInst Vec Cplx Mat CRing MatP Hop HopP Propagate PropagateP ReverseP.
+From MV Require Import Ops RInst Vec Cplx Mat CRing MatP Hop HopP Propagate PropagateP ReverseP Traj TrajP.
 Import ListNotations.
 Open Scope R_scope.
 
@@ -33,6 +33,24 @@ Theorem C07_exponential_step_reversible : forall n (lam : list R) (Cm : mat (T:=
         (fconj (mget ROps rho)).
 Proof. intros. apply exp_step_reverses; assumption. Qed.
 Print Assumptions C07_exponential_step_reversible.
+
+(* the assembled loop body (Model/Traj.step): a pass without hop attempt followed by the pass of the time-reversed problem
+   (momenta negated, density matrix conjugated, the two electronics exchanged, eigen-decomposition (lam, conj C) of the
+   conjugate generator) returns the reversed initial state: position and momentum exactly, density matrix up to conjugation *)
+Theorem C07_full_step_reversible :
+  forall n m dt poisson zeta zeta' (e0 e1 : elec (T:=R)) lam Cm (s s1 s2 : tstate (T:=R)) W hp W' hp',
+  let f0 := nth (pact s) (eforce e0) [] in let f1 := nth (pact s) (eforce e1) [] in
+  length (px s) = length m -> length (pv s) = length m -> length f0 = length m -> length f1 = length m ->
+  Forall (fun mi => mi <> 0) m -> length lam = n -> unitary n (mget ROps Cm) ->
+  step ROps n m dt poisson zeta e0 e1 lam Cm s = (s1, W, hp, None) ->
+  step ROps n m dt poisson zeta' e1 e0 lam (mconj n Cm) (mkT (px s1) (map Ropp (pv s1)) (mconj n (prho s1)) (pact s1) (ptime s1)) = (s2, W', hp', None) ->
+  px s2 = px s /\ pv s2 = map Ropp (pv s) /\ pact s2 = pact s
+  /\ meq n (mget ROps (prho s2)) (fconj (mget ROps (prho s))).
+Proof.
+  intros n m dt poisson zeta zeta' e0 e1 lam Cm s s1 s2 W hp W' hp' f0 f1 Hx Hv H0 H1 Hm Hl HC Hf Hb.
+  exact (step_reversible n m dt poisson zeta zeta' e0 e1 lam Cm s s1 s2 W hp W' hp' Hx Hv H0 H1 Hm Hl HC Hf Hb).
+Qed.
+Print Assumptions C07_full_step_reversible.
 
 (* PARTIAL: "symmetric + consistent one-step map => even order >= 2" (and hence error ratio 4
    when halving dt, for both integrators) is the classical meta-theorem and is NOT mechanised;
